@@ -30,7 +30,7 @@ ASSUMPTIONS = [
     'completeness is only demanded for names imported directly from the defining module and for paths through a module alias',
 ]
 FLOOR = {'quick': 150, 'thorough': 2000}
-SPACE = {'quick': '54 statement templates x 9 consumer scopes (singles)', 'thorough': 'all ordered pairs of statements x 9 consumer scopes'}
+SPACE = {'quick': '56 statement templates x 9 consumer scopes (singles)', 'thorough': 'all ordered pairs of statements x 9 consumer scopes'}
 JOB_TIMEOUT = 1500
 
 
@@ -71,6 +71,8 @@ def statements(pa: str, qa: str) -> List[str]:
         f'from {pa}.b import Kb, fb\n__all__ = ["Kb", "fb"]', f'from {pa}.b import *\n__all__ = ["Kb"]', f'from {pa}.b import Kb as KbAlias\n__all__ = ["KbAlias"]',
         f'from {pa}.und import *', f'from {pa}.und import *\n__all__ = ["Pub", "_make"]', f'from {pa}.und import *\nclass Motor(_Eng):\n    "ID:Motor"', f'import {pa}.und as um0',
         f'from {pa}.und import _make, hidden', f'from {pa}.und import _Eng as E0, Pub',
+        # a member inherited by a local subclass whose name is also bound, to something else, in the scope of the subclass
+        f'from {pa}.c import Kc\nfrom {pa}.b import fb as mc\nclass Sub0(Kc):\n    "ID:Sub0"', f'from {pa}.c import Right0\nfrom {pa}.b import Kb as render\nclass Sub1(Right0):\n    "ID:Sub1"',
         # a name bound by an import that is also the name of a sub-module / sub-package of the scope's package
         f'from {pa}.c import fc as b', f'from {pa}.c import Kc as s', f'from {pa}.c import fc as d',     # (a LATER import of that sub-module re-binds the name in CPython: not generated, the order of import events is dynamic)
         f'from {pa}.emp import *', f'from {pa}.c import Widget0, Page0 as P0', f'import {pa}.c as dm', f'from {pa}.c import Widget0\nclass Mine(Widget0):\n    "ID:Mine"',
